@@ -102,6 +102,17 @@ fn check_all(rep: &mut Report, w: &W, cfgname: &str, phase: &str, full_sub: bool
                 }
                 rep.model_case(vec![line], vec![r2s(&got)], "sub-charpos");
             }
+            // text_by_offset on the sub-selection: relative range -> exactly those code points
+            for b2 in 0..=sublen {
+                for e2 in b2..=sublen {
+                    let got = guarded(std::panic::AssertUnwindSafe(|| sel.text_by_offset(&Offset::simple(b2, e2)).map(|s| s.to_string()).map_err(|_| ())));
+                    let want: String = w.text.chars().skip(b + b2).take(e2 - b2).collect();
+                    rep.count("sub.text_by_offset");
+                    if got != Ok(Ok(want.clone())) {
+                        rep.fail(if got.is_err() { "panic" } else { "oracle" }, if b == 0 { "sub-text_by_offset/selection-at-0" } else { "sub-text_by_offset/selection-begins-after-0" }, vec![ctx.clone(), format!("selection {} {} relative range {} {}", b, e, b2, e2)], &want, &format!("{:?}", got));
+                    }
+                }
+            }
             // text_by_offset agrees with the plain string
             let got = guarded(std::panic::AssertUnwindSafe(|| resitem.text_by_offset(&Offset::simple(b, e)).map(|s| s.to_string()).map_err(|_| ())));
             let want: String = w.text.chars().skip(b).take(e - b).collect();
